@@ -1,5 +1,5 @@
 """X01 - growth beyond the listed properties: further parts of the library specified in TLA+ and walked the same way
-(RoundSequence, AttributeDrivenDictionary, Observable). Not a listed property: evidence/X01.json is informational."""
+(RoundSequence, AttributeDrivenDictionary, Observable, MapAccessFile, MockedRand, Singleton/Logger). Not a listed property: evidence/X01.json is informational."""
 import importlib
 import os
 
@@ -217,20 +217,140 @@ class MapFileAdapter:
             return [inv[line]]
 
 
+class MockAdapter:
+    """mocking.MockedRand / MockedRandInt; float steps and results in quarters (exact floats)"""
+
+    def __init__(self, mod):
+        self.mod = mod
+
+    def new_world(self):
+        return {"m": None, "kind": "none", "mode": "none", "seq": [], "step": 0}
+
+    def obs(self, w):
+        return {"built": w["m"] is not None, "kind": w["kind"], "mode": w["mode"], "seq": w["seq"], "step": w["step"]}
+
+    @wrap
+    def apply(self, w, op):
+        n = op["op"]
+        if n in ("newseq", "newstep"):
+            fl = op["kind"] == "float"
+            cls = self.mod.MockedRand if fl else self.mod.MockedRandInt
+            if n == "newseq":
+                vals = [x / 4.0 for x in op["s"]] if fl else list(op["s"])
+                w["m"] = cls(tuple(vals) if len(vals) % 2 else vals)
+                w["seq"], w["mode"] = list(op["s"]), "seq"
+            else:
+                w["m"] = cls(op["k"] / 4.0 if fl else op["k"])
+                w["step"], w["mode"] = op["k"], "step"
+            w["kind"] = op["kind"]
+            return []
+        if n == "call":
+            v = w["m"]() if op["how"] == "call" else w["m"].sample()
+            if w["kind"] == "float":
+                q = v * 4
+                if q != int(q):
+                    raise Unexpected("value %r is not a multiple of 1/4" % (v,))
+                return [int(q)]
+            if isinstance(v, bool) or not isinstance(v, int):
+                raise Unexpected("MockedRandInt returned %r" % (v,))
+            return [v]
+
+
+class SingletonAdapter:
+    """design_patterns.Singleton with fresh classes per world, logger.Logger re-obtained for every operation.
+    Logger is process-wide state: the harness forgets its instance when a new world starts."""
+
+    def __init__(self, dp, lg):
+        self.dp, self.lg = dp, lg
+
+    def new_world(self):
+        dp = self.dp
+        dp.Singleton._clsInstances.pop(self.lg.Logger, None)
+        w = {"cls": {}, "seen": [], "called": [], "fns": {}}
+
+        def mk(i):
+            class S(metaclass=dp.Singleton):
+                def __init__(self, a):
+                    self.a = a
+            S.__name__ = "S%d" % i
+            return S
+        for i in (1, 2):
+            w["cls"][i] = mk(i)
+        for i in (1, 2, 3):
+            def fn(*a, i=i, w=w):
+                w["called"].append((i, a))
+            w["fns"][i] = fn
+        return w
+
+    def close(self, w):
+        for c in w["cls"].values():
+            self.dp.Singleton._clsInstances.pop(c, None)
+        self.dp.Singleton._clsInstances.pop(self.lg.Logger, None)
+
+    def number(self, w, o):
+        for i, x in enumerate(w["seen"]):
+            if x is o:
+                return i + 1
+        w["seen"].append(o)
+        return len(w["seen"])
+
+    def obs(self, w):
+        reg = self.dp.Singleton._clsInstances
+        inst = []
+        for i in (1, 2):
+            o = reg.get(w["cls"][i])
+            inst.append([] if o is None else [self.number(w, o), o.a])
+        lgr = reg.get(self.lg.Logger)
+        ids = [] if lgr is None else sorted(i for i, f in w["fns"].items() if f in lgr.observers.get("LOG", ()))
+        return {"inst": inst, "reg": ids}
+
+    @wrap
+    def apply(self, w, op):
+        n = op["op"]
+        if n == "make":
+            o = w["cls"][op["c"]](op["a"])
+            if type(o) is not w["cls"][op["c"]]:
+                raise Unexpected("construction returned an object of %r" % (type(o),))
+            return [self.number(w, o), o.a]
+        L = self.lg.Logger()
+        if L is not self.lg.Logger():
+            raise Unexpected("two Logger() calls gave two objects")
+        if n == "register":
+            L.register_observer("LOG", w["fns"][op["o"]]); return []
+        if n == "unregister":
+            L.unregister_observer("LOG", w["fns"][op["o"]]); return []
+        if n == "log":
+            w["called"] = []
+            txt = "text %d" % op["t"]
+            L.log(txt)
+            if any(a != (txt,) for _, a in w["called"]):
+                raise Unexpected("observers got %r" % (w["called"],))
+            ids = [i for i, _ in w["called"]]
+            if len(ids) != len(set(ids)):
+                raise Unexpected("an observer was called twice")
+            return sorted(ids)
+
+
 def run(ctx):
     import windpyutils.generic as g
     import windpyutils.structures.data_classes as dc
     import windpyutils.design_patterns as dp
     import windpyutils.files as fl
-    for m in (g, dc, dp, fl):
+    import windpyutils.mocking as mk
+    import windpyutils.logger as lg
+    for m in (g, dc, dp, fl, mk, lg):
         importlib.reload(m)
-    ctx.rule = "growth beyond the listed properties: TLC's complete transition relation of four further specifications (RoundSequence, AttributeDrivenDictionary, Observable, MapAccessFile) walked on the real classes"
+    ctx.rule = "growth beyond the listed properties: TLC's complete transition relation of six further specifications (RoundSequence, AttributeDrivenDictionary, Observable, MapAccessFile, MockedRand / MockedRandInt, Singleton + Logger) walked on the real classes"
     jobs = (
         ("RoundSequence", os.path.join(D, "RoundSequence.tla"), {"Elems": "{1,2,3}", "MaxLen": 3}, [], ["Cyclic"], RoundAdapter(g)),
         ("AttrDict", os.path.join(D, "AttrDict.tla"), {"Keys": "{1,2,3,4,5,6,7}", "Valid": "{1,2,3}", "Vals": "{10,20}"}, [], ["ItemAssignmentValidates"],
          AttrAdapter(dc.AttributeDrivenDictionary)),
         ("Observable", os.path.join(D, "Observable.tla"), {"Tags": "{1,2}", "Observers": "{1,2,3}"}, [], ["FireCallsRegistered"], ObsAdapter(dp)),
         ("MapFile", os.path.join(D, "MapFile.tla"), {"Keys": "{1,2,3}", "NLines": 3}, [], ["ReadsFollowTheMapping"], MapFileAdapter(fl)),
+        ("MockedRand", os.path.join(D, "MockedRand.tla"), {"Elems": "{0,1,3}", "MaxLen": 3, "Steps": "{0,1,2,3,5}", "MaxCalls": 7}, ["Periodic"],
+         ["Deterministic", "IntStepIsMultiple", "FractionInRange"], MockAdapter(mk)),
+        ("SingletonLogger", os.path.join(D, "SingletonLogger.tla"), {"NCls": 2, "Args": "{10,20}", "Observers": "{1,2,3}", "Texts": "{1,2}"}, ["Distinct"],
+         ["OneInstance", "LogReachesRegistered"], SingletonAdapter(dp, lg)),
     )
     for name, spec, consts, invs, props, ad in jobs:
         model.mc(spec, consts, ctx, name, invariants=invs, properties=props)
